@@ -4,7 +4,7 @@
   Go's panic rules for indexing/re-slicing, clipped `copy`, arbitrary previous buffer contents `g`);
   the independent decoder is `Spec/Wire.lean`; the library's own views are `Model/Views.lean`.
   `wf` hypotheses are explicit and decidable; each theorem has a non-vacuity example.
-  (DHCPv4 options: Props/C03Dhcp.lean.  DNS query: Props/C17.lean.)
+  (DHCPv4 options: Props/C03Dhcp.lean.  DNS query: Props/C03Dns.lean.)
 -/
 import PacketVerif.Lemmas.Encode
 namespace PV.Props.C03
